@@ -21,6 +21,7 @@ from worlds.master import SimLogger, Cap
 
 class EvThreadWorker(ThreadWorker):
     """The real ThreadWorker; overrides only emit simulator events around the real methods."""
+    _w3 = None
 
     def handle(self, conn):
         s = facade.sim()
@@ -253,6 +254,52 @@ def _dechunk(b):
         p += n + 2
 
 
+class AppHost:
+    """The generated application shared by the worker and master worlds: behaviour chosen by the request path."""
+
+    def __init__(self, sim):
+        self.sim = sim
+        self.requests = []
+        self.app_calls = 0
+        self.app_done = 0
+
+    def app(self, environ, start_response):
+        s = self.sim
+        path = environ.get("PATH_INFO", "/")
+        self.app_calls += 1
+        n = self.app_calls
+        self.requests.append((s.now, path, current_task().name))
+        s.ev(current_task().name, "app-begin", path)
+        if path.startswith("/sleep/"):
+            seams.TIME.sleep(float(path[7:]))
+        elif path.startswith("/never"):
+            seams.TIME.sleep(1e6)
+        body = ("%s n=%d pid=%d" % (path, n, seams.OS.getpid())).encode()
+        hdrs = [("Content-Type", "text/plain")]
+        if path.startswith("/slowbody/"):
+            # /slowbody/<chunks>/<delay>: a body produced in pieces with simulated time between them
+            _, _, nch, d = path.split("/")
+            nch, d = int(nch), float(d)
+            piece = b"0123456789"
+            hdrs.append(("Content-Length", str(len(piece) * nch)))
+            start_response("200 OK", hdrs)
+
+            def gen():
+                for i in range(nch):
+                    if i:
+                        seams.TIME.sleep(d)
+                    yield piece
+                self.app_done += 1
+                s.ev(current_task().name, "app-end", path)
+            return gen()
+        if not path.startswith("/chunked"):
+            hdrs.append(("Content-Length", str(len(body))))
+        start_response("200 OK", hdrs)
+        self.app_done += 1
+        s.ev(current_task().name, "app-end", path)
+        return [body]
+
+
 class W3State:
     def __init__(self):
         self.active = {}
@@ -272,9 +319,7 @@ class WorkerWorld:
         self.cap = Cap(self)
         self.worker = None
         self.wproc = None
-        self.requests = []           # (time, path, worker task name) as seen by the application
-        self.app_calls = 0
-        self.app_done = 0
+        self.apphost = AppHost(sim)
         self.clients = []
         self.w3 = W3State()
         self.run_returned_at = None
@@ -286,26 +331,8 @@ class WorkerWorld:
         self.parent = sim.spawn_proc(self._parent_main, "parent", 1, {"PWD": "/srv"})
         self.parent_alive = True
 
-    # the application: behaviour chosen by the request path
     def app(self, environ, start_response):
-        s = self.sim
-        path = environ.get("PATH_INFO", "/")
-        self.app_calls += 1
-        n = self.app_calls
-        self.requests.append((s.now, path, current_task().name))
-        s.ev(current_task().name, "app-begin", path)
-        if path.startswith("/sleep/"):
-            seams.TIME.sleep(float(path[7:]))
-        elif path.startswith("/never"):
-            seams.TIME.sleep(1e6)
-        body = ("%s n=%d" % (path, n)).encode()
-        hdrs = [("Content-Type", "text/plain")]
-        if not path.startswith("/chunked"):
-            hdrs.append(("Content-Length", str(len(body))))
-        start_response("200 OK", hdrs)
-        self.app_done += 1
-        s.ev(current_task().name, "app-end", path)
-        return [body]
+        return self.apphost.app(environ, start_response)
 
     def _parent_main(self):
         # the parent only exists so that getppid() has something to return; it can be killed by the script
